@@ -38,10 +38,9 @@ theorem DUse.default (prog : List COp) (s : Nat) : DUse s {} { prog := prog } :=
 
 /-- the premises of `DUseP` are about things no action changes -/
 theorem DUseP.worker (s : Nat) (cl : Client) (st st' : Stream) (he : st'.cam.emptyEvery = st.cam.emptyEvery)
-    (h : st.cam.emptyEvery = 0 → DUse s st cl → DUse s st' cl) (hp : DUseP s st cl) : DUseP s st' cl := by
-  intro b c
-  rw [he] at b
-  exact h b (hp b c)
+    (h : DUse s st cl → DUse s st' cl) (hp : DUseP s st cl) : DUseP s st' cl := by
+  intro _ c
+  exact h (hp (Here.intro _) c)
 
 theorem src_keeps_script (s : Nat) : ∀ a ∈ srcActs s, ∀ st, (a.upd st).cam.failAt = st.cam.failAt ∧ (a.upd st).cam.emptyEvery = st.cam.emptyEvery := by
   intro a ha st; unfold srcActs at ha; each_action ha <;> exact ⟨rfl, rfl⟩
@@ -51,7 +50,7 @@ theorem snk_keeps_script (s : Nat) : ∀ a ∈ snkActs s, ∀ st, (a.upd st).cam
   intro a ha st; unfold snkActs at ha; each_action ha <;> exact ⟨rfl, rfl⟩
 
 /-- **`sink.in` is used within the channel's rules, and the threads' bookkeeping agrees with it, in every state of every
-schedule** (scripted camera faults included; for cameras that deliver no empty frames and clients that keep the monitoring API's usage rule) -/
+schedule** (scripted camera faults and empty frames included; for clients that keep the monitoring API's usage rule) -/
 theorem DUse.micro : ∀ rt, MReach rt → ∀ s, DUseP s (getS rt s) rt.client := by
   apply MReach.inv' (fun rt => ∀ s, DUseP s (getS rt s) rt.client)
   · intro ring cfgs prog s _ _
@@ -62,15 +61,15 @@ theorem DUse.micro : ∀ rt, MReach rt → ∀ s, DUseP s (getS rt s) rt.client 
   · intro s a ha rt hr hg h
     refine all_setS_cl DUseP rt s _ ?_ h
     exact DUseP.worker s rt.client _ _ (src_keeps_script s a ha _).2
-      (fun he hd => DUse.src s rt.client rt.state a ha _ hg (TInvAll.micro rt hr s) he hd) (h s)
+      (fun hd => DUse.src s rt.client rt.state a ha _ hg (TInvAll.micro rt hr s) hd) (h s)
   · intro s a ha rt _ hg h
     refine all_setS_cl DUseP rt s _ ?_ h
     exact DUseP.worker s rt.client _ _ (flt_keeps_script a ha _).2
-      (fun _ hd => DUse.flt s rt.client a ha _ hg hd) (h s)
+      (fun hd => DUse.flt s rt.client a ha _ hg hd) (h s)
   · intro s a ha rt hr hg h
     refine all_setS_cl DUseP rt s _ ?_ h
     exact DUseP.worker s rt.client _ _ (snk_keeps_script s a ha _).2
-      (fun _ hd => DUse.snk s rt.client rt.state a ha _ hg (TInvAll.micro rt hr s) hd) (h s)
+      (fun hd => DUse.snk s rt.client rt.state a ha _ hg (TInvAll.micro rt hr s) hd) (h s)
   · intro a ha rt hr hg h
     exact client_families DUse.Kept DUse.client_base DUse.client_mon DUse.client_cfg DUse.client_start DUse.client_err
       DUse.client_stop DUse.client_acc DUse.client_flush a ha rt (TInvAll.micro rt hr) hg h
